@@ -32,7 +32,7 @@ type outTruth struct {
 type utxTruth struct {
 	ain      bool
 	outs     []outTruth // per UTXO output, in order
-	spent    *ownedOut  // the output a UTXO->UTXO spend consumes
+	spent    []*ownedOut // the outputs a UTXO->UTXO spend consumes (one or two inputs)
 	withdraw bool       // UTXO -> account output (+ confidential change)
 }
 
@@ -100,15 +100,7 @@ func utxHasAccountInput(wt *wireTx) bool {
 
 func (w *world) judgeUtx(wt *wireTx) verdict {
 	if utxHasAccountInput(wt) {
-		sg, _ := getSig(wt, 0)
-		signer, st, alt, altOK := indepSender(wt.signedFields(), sg, w.p)
-		switch st {
-		case sigOK:
-			return verdict{ok: true, chargee: signer}
-		case sigWrongChain:
-			return verdict{reason: "wrong-chain", unbound: true, alt: alt, altOK: altOK, legacy: sg.v.Cmp(big.NewInt(28)) <= 0}
-		}
-		return verdict{reason: st.String()}
+		return w.judgeSingle(wt)
 	}
 	// ring-signed: authorised iff these are exactly the bytes an owner built
 	if w.honestUtx[string(wt.bytes())] {
@@ -181,11 +173,13 @@ func (w *world) ringFor(t *kernel.Tape, g uint64, m int) ([]types.UTXORingEntry,
 	return ring, pos, true
 }
 
-// buildSpend builds a UTXO->UTXO transaction spending o with the keys of
+// buildSpend builds a UTXO->UTXO transaction spending os with the keys of
 // wallet `with` (the owner, or — for the foreign-key check — somebody else).
-func (w *world) buildSpend(t *kernel.Tape, o *ownedOut, with *wallet, ring []types.UTXORingEntry, pos uint64, dests []types.DestEntry, extra []byte) (*types.UTXOTransaction, error) {
-	src := &types.UTXOSourceEntry{Ring: ring, RingIndex: pos, RKey: o.rKey, OutIndex: o.outIndex, Amount: o.amount, Mask: o.mask}
-	sources := []*types.UTXOSourceEntry{src}
+func (w *world) buildSpend(t *kernel.Tape, os []*ownedOut, with *wallet, rings [][]types.UTXORingEntry, poss []uint64, dests []types.DestEntry, extra []byte) (*types.UTXOTransaction, error) {
+	var sources []*types.UTXOSourceEntry
+	for i, o := range os {
+		sources = append(sources, &types.UTXOSourceEntry{Ring: rings[i], RingIndex: poss[i], RKey: o.rKey, OutIndex: o.outIndex, Amount: o.amount, Mask: o.mask})
+	}
 	var tx *types.UTXOTransaction
 	var err error
 	_, msg, panicked := kernel.Try(func() {
@@ -202,7 +196,7 @@ func (w *world) buildSpend(t *kernel.Tape, o *ownedOut, with *wallet, ring []typ
 	return tx, err
 }
 
-// genSpend: wallet a spends one of its outputs to wallet b (main or
+// genSpend: wallet a spends one or two of its outputs to wallet b (main or
 // sub-address) with change to one of its own sub-addresses. Also returns a
 // forged competitor built with another wallet's keys when the library lets
 // one be built.
@@ -217,14 +211,30 @@ func (w *world) genSpend(t *kernel.Tape) (*sent, *types.UTXOTransaction, error) 
 		return nil, nil, nil
 	}
 	o := cands[t.Int(len(cands))]
+	os := []*ownedOut{o}
+	if t.Bool(1, 3) { // a second input of the same wallet
+		var more []*ownedOut
+		for _, c := range cands {
+			if c != o && c.wallet == o.wallet {
+				more = append(more, c)
+			}
+		}
+		if len(more) > 0 {
+			os = append(os, more[t.Int(len(more))])
+		}
+	}
+	total := new(big.Int)
+	for _, x := range os {
+		total.Add(total, x.amount)
+	}
 	a := w.wallets[o.wallet]
 	fee := new(big.Int).Mul(new(big.Int).SetUint64(w.R.App.GetUTXOGas()), gasPrice)
 	withdraw := t.Bool(1, 3) // UTXO -> account output (plus confidential change)
 	if withdraw {
-		// the transfer-fee part depends on the withdrawn amount; reserve the maximum for what an output can hold
-		fee.Add(fee, new(big.Int).Mul(new(big.Int).SetUint64(types.CalNewAmountGas(o.amount, types.EverLiankeFee)), gasPrice))
+		// the transfer-fee part depends on the withdrawn amount; reserve the maximum for what the inputs can hold
+		fee.Add(fee, new(big.Int).Mul(new(big.Int).SetUint64(types.CalNewAmountGas(total, types.EverLiankeFee)), gasPrice))
 	}
-	rest := new(big.Int).Sub(o.amount, fee)
+	rest := new(big.Int).Sub(total, fee)
 	if rest.Cmp(new(big.Int).Mul(rate, big.NewInt(4))) < 0 {
 		return nil, nil, nil
 	}
@@ -235,9 +245,14 @@ func (w *world) genSpend(t *kernel.Tape) (*sent, *types.UTXOTransaction, error) 
 			m = int(w.utxoNext)
 		}
 	}
-	ring, pos, ok := w.ringFor(t, o.global, m)
-	if !ok {
-		return nil, nil, fmt.Errorf("ring members not in the replica's store")
+	var rings [][]types.UTXORingEntry
+	var poss []uint64
+	for _, x := range os {
+		ring, pos, ok := w.ringFor(t, x.global, m)
+		if !ok {
+			return nil, nil, fmt.Errorf("ring members not in the replica's store")
+		}
+		rings, poss = append(rings, ring), append(poss, pos)
 	}
 	restUnits := new(big.Int).Div(rest, rate)
 	toB := new(big.Int).Mul(new(big.Int).Div(new(big.Int).Mul(restUnits, big.NewInt(int64(1+t.Int(8)))), big.NewInt(10)), rate)
@@ -247,7 +262,7 @@ func (w *world) genSpend(t *kernel.Tape) (*sent, *types.UTXOTransaction, error) 
 	change := new(big.Int).Sub(rest, toB)
 	bi, bsub := t.Int(len(w.wallets)), t.Int(3)
 	asub := 1 + t.Int(2)
-	truth := &utxTruth{spent: o, outs: []outTruth{{bi, bsub, toB}}}
+	truth := &utxTruth{spent: os, outs: []outTruth{{bi, bsub, toB}}}
 	dests := []types.DestEntry{&types.UTXODestEntry{Addr: w.wallets[bi].subs[bsub], Amount: toB, IsSubaddress: bsub > 0}}
 	if withdraw {
 		if change.Sign() <= 0 {
@@ -265,7 +280,7 @@ func (w *world) genSpend(t *kernel.Tape) (*sent, *types.UTXOTransaction, error) 
 	if t.Bool(1, 3) {
 		extra = t.Bytes(1 + t.Int(8))
 	}
-	tx, err := w.buildSpend(t, o, a, ring, pos, dests, extra)
+	tx, err := w.buildSpend(t, os, a, rings, poss, dests, extra)
 	if err != nil {
 		return nil, nil, fmt.Errorf("owner cannot build the spend: %v", err)
 	}
@@ -275,14 +290,16 @@ func (w *world) genSpend(t *kernel.Tape) (*sent, *types.UTXOTransaction, error) 
 		return nil, nil, err
 	}
 	w.honestUtx[string(raw)] = true
-	o.pending = true
-	s := &sent{kind: kUtx, w: wt, raw: raw, utx: truth, desc: fmt.Sprintf("spend w%d out#%d ring=%d withdraw=%v", o.wallet, o.global, len(ring), withdraw)}
+	for _, x := range os {
+		x.pending = true
+	}
+	s := &sent{kind: kUtx, w: wt, raw: raw, utx: truth, desc: fmt.Sprintf("spend w%d out#%d inputs=%d ring=%d withdraw=%v", o.wallet, o.global, len(os), m, withdraw)}
 
 	// the same spend attempted with somebody else's keys
 	var foreign *types.UTXOTransaction
 	for _, other := range w.wallets {
 		if other.idx != o.wallet {
-			if ftx, ferr := w.buildSpend(t, o, other, ring, pos, dests, extra); ferr == nil && ftx != nil {
+			if ftx, ferr := w.buildSpend(t, os, other, rings, poss, dests, extra); ferr == nil && ftx != nil {
 				foreign = ftx
 			}
 			break
